@@ -171,9 +171,10 @@ let do_seq line args res =
       (match res with
        | [e; un] ->
            let consistent = ((e = "1") = (zh un <=! Z0)) in
-           if ttl <! two62 then prop "expiry_consistent" consistent line ""
+           (* exact domain guard of C13_expiry_consistent: TTL < 2^63 - physical(lockTS) *)
+           if ttl <! zsub (zh "8000000000000000") (extract_physical lock) then prop "expiry_consistent" consistent line ""
            else begin
-             bump "X:ttl>=2^62";
+             bump "X:ttl>=2^63-phys(lock) (outside the domain)";
              if not consistent then finding "expiry_ttl_ge_2pow62_int64_overflow" line ("IsExpired=" ^ e ^ " UntilExpired=" ^ un)
            end
        | _ -> ())
